@@ -203,7 +203,8 @@ def c08_typedefs(td_kind: int, td_place: int, p: int, nsdepth: int, l0: int) -> 
     pre: 1 <= td_kind <= 3 and 0 <= td_place <= 5 and 1 <= p <= 2 and 0 <= nsdepth <= 2 and 0 <= l0 <= 2
     post: _
     """
-    td_kind, td_place, p, nsdepth, l0 = pick(td_kind, 1, 4), pick(td_place, 0, 6), pick(p, 1, 3), pick(nsdepth, 0, 3), pick(l0, 0, 3)
+    td_kind, td_place, p, nsdepth = pick(td_kind, 1, 4), pick(td_place, 0, 6), pick(p, 1, 3), pick(nsdepth, 0, 3)
+    l0 = pick(l0, 0, 3) if THOROUGH else (td_kind + td_place + p + nsdepth) % 3          # quick: the list length is derived
     with concrete():
         ok = check(p, [l0, 1, 0], 1, [1, 1], p, [l0, 1], td_kind, td_place, nsdepth)
     reached({"typedef": td_kind, "place": td_place, "p": p, "nsdepth": nsdepth})
@@ -487,7 +488,7 @@ def conds(tier):
         xh.Cond(M, "c08_product", t(420, 3000), kind="shape-bounded", path_timeout=60, examples=["p=2, l0=2, l1=3, l2=0, mp=1, ml=2, fp=2, fl=2", "p=3, l0=1, l1=0, l2=2, mp=0, ml=1, fp=0, fl=0", "p=1, l0=0, l1=0, l2=0, mp=2, ml=1, fp=1, fl=3"],
                 bounds="1-3 class parameters x 0-%s instantiations each (third list %s) x 0-2 member-template parameters x 0-2 function-template parameters" % ("3" if not q else "2", "free, function-template list derived" if not q else "derived")),
         xh.Cond(M, "c08_typedefs", t(300, 1200), kind="shape-bounded", path_timeout=60, examples=["td_kind=1, td_place=2, p=2, nsdepth=1, l0=1", "td_kind=3, td_place=3, p=1, nsdepth=2, l0=0", "td_kind=2, td_place=0, p=1, nsdepth=0, l0=2"],
-                bounds="3 typedef targets x 4 placements x 1-2 parameters x namespace depth 0-2 x 0-2 enumerated instantiations"),
+                bounds="3 typedef targets x 6 placements (in / below / before / after the template's namespace block, sibling namespace) x 1-2 parameters x namespace depth 0-2 x %s" % ("0-2 enumerated instantiations" if not q else "list length derived")),
         xh.Cond(M, "c08_template_id_lists", t(120, 600), kind="shape-bounded", examples=["which=0, kind=0, nsdepth=1", "which=1, kind=1, nsdepth=0", "which=3, kind=0, nsdepth=2", "which=4, kind=0, nsdepth=0"],
                 bounds="%d instantiation lists with shared outer names x class | function template x namespace depth 0-2" % len(TID_LISTS)),
         xh.Cond(M, "c08_same_name_templates", t(120, 600), kind="shape-bounded", examples=["layout=0, order=0, where=0", "layout=1, order=0, where=1", "layout=2, order=1, where=1", "layout=4, order=1, where=2"],
